@@ -78,3 +78,75 @@ Example C17_example :
   from_str [97; 196608; 1114111; 196607] = [97; 65533; 65533; 196607] /\ from_u32 4294967295 = [65533] /\
   parse_smt_literal [92; 117; 123; 51; 48; 48; 48; 48; 125] = Some [92; 117; 123; 51; 48; 48; 48; 48; 125].
 Proof. vm_compute. repeat split. Qed.
+
+(* ---------------------------------------------------------------- accessors of SmtString
+   From<&[u32; N]>, good_char, good_string, is_good, len, is_empty, char(i), iter, is_unicode,
+   to_unicode_string (model: StrMisc.v, lemmas: StrMiscProofs.v).
+   [surrogate x] = 0xD800 <= x <= 0xDFFF; [is_rust_char x] = char::from_u32(x).is_some(). *)
+Require Import StrMisc StrMiscProofs.
+
+(* the array constructor is the slice constructor: it clamps exactly the integers above MAX_CHAR *)
+Theorem C17_from_array : forall a,
+  from_array a = from_slice a /\ goodw (from_array a) /\ Forall2 clamp_spec a (from_array a).
+Proof. exact from_array_spec. Qed.
+Print Assumptions C17_from_array.
+
+Theorem C17_good_char : forall x, good_char x = true <-> good x.
+Proof. exact good_char_iff. Qed.
+Print Assumptions C17_good_char.
+Theorem C17_good_string : forall a, good_string a = true <-> goodw a.
+Proof. exact good_string_iff. Qed.
+Print Assumptions C17_good_string.
+
+(* is_good: every character is an SMT character and the length is below i32::MAX *)
+Theorem C17_is_good_iff : forall s, smt_is_good s = true <-> goodw s /\ (Z.of_nat (length s) < MAX_LENGTH)%Z.
+Proof. exact is_good_iff. Qed.
+Print Assumptions C17_is_good_iff.
+
+(* for the strings a test can build (shorter than i32::MAX) is_good is goodw *)
+Theorem C17_is_good_iff_goodw : forall s, (Z.of_nat (length s) < MAX_LENGTH)%Z -> (smt_is_good s = true <-> goodw s).
+Proof. exact is_good_iff_goodw. Qed.
+Print Assumptions C17_is_good_iff_goodw.
+
+(* the length bounds of make (n > MAX_LENGTH panics) and is_good (n < MAX_LENGTH) differ by one: a
+   vector of exactly i32::MAX good characters is accepted by From<Vec<u32>> but is not is_good *)
+Theorem C17_is_good_boundary : forall s, goodw s -> Z.of_nat (length s) = MAX_LENGTH ->
+  smt_make s = Some s /\ from_vec s = s /\ smt_is_good s = false.
+Proof. exact is_good_boundary. Qed.
+Print Assumptions C17_is_good_boundary.
+
+(* len, is_empty, char(i) (panic = None exactly out of range), iter *)
+Theorem C17_accessors : forall s,
+  (smt_is_empty s = true <-> smt_len s = 0%nat) /\ (smt_is_empty s = true <-> s = []) /\
+  (forall i c, smt_char s i = Some c <-> (i < smt_len s)%nat /\ nth i s 0 = c) /\
+  (forall i, smt_char s i = None <-> (smt_len s <= i)%nat) /\
+  smt_iter s = s /\ map (smt_char s) (seq 0 (smt_len s)) = map Some (smt_iter s).
+Proof. exact accessors_spec. Qed.
+Print Assumptions C17_accessors.
+
+(* to_unicode_string of any vector: same length, Rust chars only, Rust chars kept, the rest U+FFFD;
+   is_unicode exactly when nothing has to be replaced *)
+Theorem C17_to_unicode_string : forall v,
+  length (smt_to_unicode_string v) = length v /\
+  all_unicode (smt_to_unicode_string v) = true /\
+  Forall2 (fun x y => (is_rust_char x = true -> y = x) /\ (is_rust_char x = false -> y = REPLC))
+          v (smt_to_unicode_string v) /\
+  (smt_is_unicode v = true <-> smt_to_unicode_string v = v /\ Forall (fun x => is_rust_char x = true) v).
+Proof. exact to_unicode_string_spec. Qed.
+Print Assumptions C17_to_unicode_string.
+
+(* of a good string exactly the surrogates are replaced *)
+Theorem C17_to_unicode_string_good : forall s, goodw s ->
+  Forall2 (fun x y => (surrogate x -> y = REPLC) /\ (~ surrogate x -> y = x)) s (smt_to_unicode_string s) /\
+  (smt_is_unicode s = true <-> Forall (fun x => ~ surrogate x) s) /\
+  (smt_is_unicode s = true <-> smt_to_unicode_string s = s) /\
+  goodw (smt_to_unicode_string s).
+Proof. exact to_unicode_string_good. Qed.
+Print Assumptions C17_to_unicode_string_good.
+
+Example C17_example_accessors :
+  from_array [97; 4294967295; 55296] = [97; 65533; 55296] /\
+  smt_is_good [97; 55296; 196607] = true /\ good_string [97; 196608] = false /\
+  smt_is_unicode [97; 55296] = false /\ smt_to_unicode_string [97; 55296; 57343; 57344; 196607] = [97; 65533; 65533; 57344; 196607] /\
+  smt_char [97; 98] 1 = Some 98 /\ smt_char [97; 98] 2 = None /\ smt_is_empty [] = true.
+Proof. vm_compute. repeat split. Qed.
